@@ -92,7 +92,8 @@ impl<'g> Args<'g> {
         s
     }
     pub fn opt_string(&mut self) -> Option<String> { if !self.omit() { Some(self.string()) } else { None } }
-    fn count(&mut self, n: usize) -> usize { if self.omitted { 0 } else { self.rng.below(n) } }
+    /// length of a list argument: seldom empty (an empty list hides what the method does with its elements)
+    fn count(&mut self, n: usize) -> usize { if self.omitted { 0 } else if self.rng.chance(1, 8) { 0 } else { 1 + self.rng.below(n - 1) } }
     pub fn words(&mut self) -> Vec<u32> {
         if let Some(ws) = self.forced_words.take() { for w in &ws { self.flat_w(*w); } return ws; }
         (0..self.count(4)).map(|_| self.word()).collect()
